@@ -151,7 +151,9 @@ def run_hemi(shape):
 
     def body():
         with bound(U, np=proxy, print=noprint):
-            return U.hemisphere_quaternion_set(sarr([[SR(x) for x in row] for row in Q]), upper=upper)
+            given = sarr([[SR(x) for x in row] for row in Q])      # a float array owned by the caller
+            out = U.hemisphere_quaternion_set(given, upper=upper)
+            return out, given
 
     for path in eng.explore(body):
         acc.begin(prover, path)
@@ -160,10 +162,12 @@ def run_hemi(shape):
             continue
         if acc.reachable is not True:
             acc.reach(prover.satisfiable(path.premises))
-        out = path.value
-        acc.structural("shape", tuple(np.shape(out)) == (N, 4), detail=np.shape(out))
-        if tuple(np.shape(out)) != (N, 4):
+        out, given = path.value
+        acc.structural("shape", tuple(np.shape(out)) == (N, 4) and tuple(np.shape(given)) == (N, 4), detail=np.shape(out))
+        if tuple(np.shape(out)) != (N, 4) or tuple(np.shape(given)) != (N, 4):
             continue
+        # (that the caller's array comes back untouched is NOT demanded here: C07 speaks about grids; what an in-place helper does to a grid
+        # that hands out its own array is the history of the `double` shapes)
         claims = []
         for i in range(N):
             row = [z(out[i, k]) for k in range(4)]
@@ -220,6 +224,10 @@ def run_double(shape):
                 d3.get_grid_as_array(only_upper=True)
             g = SymGrid(N=N)
             g.gen_grid()
+            if shape.get("history"):
+                # ... and the caller asks the helper for canonical representatives of the double-cover array it got from the grid
+                U.hemisphere_quaternion_set(g.get_grid_as_array(only_upper=False))
+                U.hemisphere_quaternion_set(g.get_grid_as_array(only_upper=False), upper=False)
             return g.get_grid_as_array(only_upper=False), g.get_grid_as_array(), g.get_upper_indices(), g.get_N(), type(g.get_spherical_voronoi()).__name__
 
     for path in eng.explore(body):
@@ -314,7 +322,8 @@ def replay(cex):
         for Q in sets:
             if np.any(np.all(Q == 0, axis=1)):
                 continue
-            out = U.hemisphere_quaternion_set(Q, upper=s["upper"])
+            given = np.array(Q, dtype=float)
+            out = U.hemisphere_quaternion_set(given, upper=s["upper"])
             for i in range(N):
                 exp = Q[i] if _canon_f(Q[i]) == s["upper"] else -Q[i]
                 if out.shape != (N, 4) or not np.array_equal(out[i], exp):
@@ -365,6 +374,9 @@ def replay(cex):
                 return {"reproduced": s["unit"], "detail": f"gen_grid raised AssertionError {e} for rows of norm {np.linalg.norm(G, axis=1).tolist()}"}
             if not s["unit"]:
                 return {"reproduced": True, "detail": "non-unit row accepted"}
+            if s.get("history"):
+                U.hemisphere_quaternion_set(g.get_grid_as_array(only_upper=False))
+                U.hemisphere_quaternion_set(g.get_grid_as_array(only_upper=False), upper=False)
             full, half = g.get_grid_as_array(only_upper=False), g.get_grid_as_array()
             if full.shape != (2 * N, 4) or not np.array_equal(full[:N], G) or not np.array_equal(full[N:], -G):
                 bad.append("full array is not [G; -G]")
